@@ -197,19 +197,19 @@ PLAN["C01"] = {
     "trusted": ["rustc / kani-compiler / CBMC", "reference rules (harness/common/rules.rs)"],
     "assumptions": ["positions are legal positions (invariant of the property's quantifier)"],
     "insts": [
-        _c01_filter("filter_pieces_white_u2", 2, ("quick", "thorough"), 3600, 3),
-        _c01_filter("filter_pieces_black_u2", 2, ("quick", "thorough"), 3600, 3),
-        _c01_filter("filter_king_white_u2", 2, ("quick", "thorough"), 3600, 3),
-        _c01_filter("filter_king_black_u2", 2, ("quick", "thorough"), 3600, 3),
-        _c01_filter("filter_pawn_white_u2", 2, ("quick", "thorough"), 3600, 3),
-        _c01_filter("filter_pawn_black_u2", 2, ("quick", "thorough"), 3600, 3),
+        _c01_filter("filter_pieces_white_u2", 2, ("quick", "thorough"), 3600, 2.5),
+        _c01_filter("filter_pieces_black_u2", 2, ("quick", "thorough"), 3600, 2.5),
+        _c01_filter("filter_king_white_u2", 2, ("quick", "thorough"), 3600, 2.5),
+        _c01_filter("filter_king_black_u2", 2, ("quick", "thorough"), 3600, 2.5),
+        _c01_filter("filter_pawn_white_u2", 2, ("quick", "thorough"), 3600, 2.5),
+        _c01_filter("filter_pawn_black_u2", 2, ("quick", "thorough"), 3600, 2.5),
         _c01_filter("filter_pieces_white_u3", 3, ("thorough",), 7200, 6),
         _c01_filter("filter_pieces_black_u3", 3, ("thorough",), 7200, 6),
         _c01_filter("filter_king_white_u3", 3, ("thorough",), 7200, 6),
         _c01_filter("filter_king_black_u3", 3, ("thorough",), 7200, 6),
         _c01_filter("filter_pawn_white_u3", 3, ("thorough",), 7200, 6),
         _c01_filter("filter_pawn_black_u3", 3, ("thorough",), 7200, 6),
-        Inst("c01::lemma_legal_moves_are_candidates", sub="C01 glue", timeout=1800, mem_gb=5, functions=("(reference only: rules::legal_ref, rules::gen_pseudo)",),
+        Inst("c01::lemma_legal_moves_are_candidates", sub="C01 glue", timeout=1800, mem_gb=4, functions=("(reference only: rules::legal_ref, rules::gen_pseudo)",),
              bounds="any legal position, any coordinates; no bound"),
         _c01_gen("gen_kk_white_sound", 1, 8, ('thorough',), 3600, 6, 8),
         _c01_gen("gen_kk_white_complete", 1, 8, ('thorough',), 3600, 6, 8),
@@ -253,28 +253,28 @@ PLAN["C01"] = {
         _c01_gen("gen_q_kp_kp_ep_white_complete", 1, 8, ("thorough",), 3600, 8, 12),
         _c01_gen("gen_q_kp_kp_ep_black_sound", 1, 8, ("thorough",), 3600, 8, 12),
         _c01_gen("gen_q_kp_kp_ep_black_complete", 1, 8, ("thorough",), 3600, 8, 12),
-        _c01_gen("gen_q_kn_kp_white_sound", 1, 8, ('quick', 'thorough'), 3600, 6, 16),
-        _c01_gen("gen_q_kn_kp_white_complete", 1, 8, ('quick', 'thorough'), 3600, 6, 16),
-        _c01_gen("gen_q_kn_kp_black_complete", 1, 8, ('quick', 'thorough'), 3600, 6, 16),
-        _c01_gen("gen_q_kb_kp_white_complete", 1, 13, ('quick', 'thorough'), 3600, 9, 21),
+        _c01_gen("gen_q_kn_kp_white_sound", 1, 8, ('quick', 'thorough'), 3600, 5, 16),
+        _c01_gen("gen_q_kn_kp_white_complete", 1, 8, ('quick', 'thorough'), 3600, 5, 16),
+        _c01_gen("gen_q_kn_kp_black_complete", 1, 8, ('quick', 'thorough'), 3600, 5, 16),
+        _c01_gen("gen_q_kb_kp_white_complete", 1, 13, ('quick', 'thorough'), 3600, 8, 21),
         _c01_gen("gen_q_kb_kp_black_sound", 1, 13, ('thorough',), 3600, 9, 21),
         _c01_gen("gen_q_kq_kp_white_complete", 1, 27, ('thorough',), 5400, 16, 35),
         _c01_gen("gen_q_kq_kp_black_sound", 1, 27, ('thorough',), 5400, 16, 35),
-        _c01_gen("gen_q_kpp_knn_white_sound", 2, 8, ("quick", "thorough"), 3600, 8, 32, 2),
-        _c01_gen("gen_q_kpp_knn_white_complete", 2, 8, ("quick", "thorough"), 3600, 8, 32, 2),
-        _c01_gen("gen_q_kpp_knn_black_complete", 2, 8, ("quick", "thorough"), 3600, 8, 32, 2),
+        _c01_gen("gen_q_kpp_knn_white_sound", 2, 8, ("quick", "thorough"), 3600, 7.5, 32, 2),
+        _c01_gen("gen_q_kpp_knn_white_complete", 2, 8, ("quick", "thorough"), 3600, 7.5, 32, 2),
+        _c01_gen("gen_q_kpp_knn_black_complete", 2, 8, ("quick", "thorough"), 3600, 7.5, 32, 2),
         _c01_gen("gen_q_kp_kpn_ep_white_sound", 1, 8, ("thorough",), 3600, 8, 16),
-        _c01_gen("gen_q_kp_kpn_ep_white_complete", 1, 8, ("quick", "thorough"), 3600, 8, 16),
+        _c01_gen("gen_q_kp_kpn_ep_white_complete", 1, 8, ("quick", "thorough"), 3600, 7.5, 16),
         _c01_gen("gen_q_kp_kpn_ep_black_complete", 1, 8, ("thorough",), 3600, 8, 16),
-        _c01_gen("gen_q_kpp_kp_ep_white_complete", 2, 8, ("quick", "thorough"), 3600, 8, 24),
-        _c01_gen("gen_q_kpp_kp_ep_black_complete", 2, 8, ("quick", "thorough"), 3600, 8, 24),
-        _c01_gen("gen_castle_rn_white_sound", 2, 14, ('quick', 'thorough'), 3600, 8, 40),
-        _c01_gen("gen_castle_rn_black_sound", 2, 14, ('quick', 'thorough'), 3600, 8, 40),
+        _c01_gen("gen_q_kpp_kp_ep_white_complete", 2, 8, ("quick", "thorough"), 3600, 7.5, 24),
+        _c01_gen("gen_q_kpp_kp_ep_black_complete", 2, 8, ("quick", "thorough"), 3600, 7.5, 24),
+        _c01_gen("gen_castle_rn_white_sound", 2, 14, ('quick', 'thorough'), 3600, 7.5, 40),
+        _c01_gen("gen_castle_rn_black_sound", 2, 14, ('quick', 'thorough'), 3600, 7.5, 40),
         _c01_gen("gen_castle_n_white_sound", 2, 14, ('thorough',), 3600, 7, 40),
         _c01_gen("gen_castle_n_white_complete", 2, 14, ("thorough",), 3600, 7, 40),
         _c01_gen("gen_castle_n_black_sound", 2, 14, ('thorough',), 3600, 7, 40),
         _c01_gen("gen_castle_n_black_complete", 2, 14, ("thorough",), 3600, 7, 40),
-        Inst("c01::reach_witness", sub="vacuity", unwind=10, nomem=True, timeout=1800, expect="fail",
+        Inst("c01::reach_witness", sub="vacuity", unwind=10, nomem=True, timeout=1800, mem_gb=4, expect="fail",
              unwindset=(("expand_moves", 10), ("compute_pawn_moves", 6), ("compute_knight_moves", 3), ("compute_bishop_moves", 3), ("compute_rook_moves", 3),
                         ("compute_queen_moves", 3), ("compute_king_moves", 4), ("from_occupancy#0", 3), ("from_occupancy#1", 8), ("piece_at#0", 8), ("piece_at#1", 4), ("family", 6))),
     ],
